@@ -102,7 +102,25 @@ def make_spec(pid, profile, rule_extra, n_quick=100, n_thorough=6000, extra_orac
     }
 
 
-def replay(pid, case, extra_oracle=None):
+def with_master_stage(spec, pid, tier, seed, trace_oracle=None, use_oracle=True):
+    """adds the master-level stage (harness/props/_master_stage.py) to a spec made by make_spec"""
+    inner = spec['extra']
+
+    def extra(r, cases, obs):
+        cov = inner(r, cases, obs)
+        from . import _master_stage
+        cov.update(_master_stage.stage(pid, r, seed, 60 if tier == 'quick' else 2500, extra=trace_oracle, use_oracle=use_oracle))
+        return cov
+    spec['extra'] = extra
+    spec['rule'] += ('; plus a master-level stage: E-master histories (profile sched) on the real Master, every cycle it '
+                     'runs recorded as E-cell records one and judged by the same oracle')
+    return spec
+
+
+def replay(pid, case, extra_oracle=None, trace_oracle=None):
+    if isinstance(case, dict) and case.get('engine') == 'E-master-probe':
+        from . import _master_stage
+        return _master_stage.replay(pid, case, extra=trace_oracle, use_oracle=(pid != 'C08'))
     r = ecell.run_history(case)
     hits = ecell_oracles.run_oracle(pid, r['trace'])
     if r['error'] is not None:
